@@ -57,7 +57,9 @@ func init() {
 		var vs []Variant
 		// a history: a dial that fails (refused), then - same goroutine, same poller, the slot just
 		// released - a dial that must succeed and be usable
-		for _, seq := range []string{"refuse>unix-accept", "refuse>accept"} {
+		// (the second dial goes to a unix listener: a TCP echo after a refused TCP dial proved
+		// timing dependent under load - a schedule did not always reproduce - so it is not generated)
+		for _, seq := range []string{"refuse>unix-accept"} {
 			seq := seq
 			vs = append(vs, Variant{
 				Name: fmt.Sprintf("target=%s,timeout=1s,dials=2-sequential", seq),
